@@ -173,7 +173,7 @@ def make_np(env, name, tag='', narms=2):
     kind = parts[0]
     if kind == 'radius':
         metric = parts[1] if len(parts) > 1 else 'cityblock'
-        if metric == 'euclidean':
+        if metric in ('euclidean', 'seuclidean'):
             rho = env.real('rho' + tag, 0, lo_strict=True)
             r = env.sqrt_cmp(rho)
             env.assume(r > 0)
